@@ -2,6 +2,7 @@ import EupsModel.Lemmas.SetupFrame
 import EupsModel.Lemmas.SetupKeep
 import EupsModel.Lemmas.SetupInverse
 import EupsModel.Lemmas.SetupLines
+import EupsModel.Lemmas.SetupShell
 /-! C04 — setup changes only what it was asked to (keep, just, max-depth, bystanders).
 Model: `EupsModel/Model/Setup.lean`; lemmas: `EupsModel/Lemmas/SetupInv.lean`, `SetupFrame.lean`, `SetupKeep.lean`.
 
@@ -77,6 +78,75 @@ theorem C04_just (db : Db) (fuel : Nat) (fwd : Bool) (r : Request) (hN : r.maxDe
   subst this
   cases hw
   exact hm rfl
+
+/-! ## frame, the rest of the environment: foreign elements, bystanders' elements, shell functions -/
+
+open Classical in
+/-- the elements of a path variable that do not belong to a name in `S`: foreign strings and own elements of other products -/
+noncomputable def outsideOf (S : Name → Prop) : Elem → Bool
+  | .own p _ => decide (¬ S p.1)
+  | .foreign _ => true
+
+/-- In every path variable the sub-list (duplicates removed, order kept) of the elements that are foreign or belong to a
+product not reachable from the requested one is the same before and after — setup and unsetup, every mode, every fuel;
+for tables that contribute through their own `${PRODUCT_DIR}` (`OwnTables`: a literal contributed by a table of the
+closure is, of course, added / removed). -/
+theorem C04_frame_paths_partial (db : Db) (hown : OwnTables db) (fuel : Nat) (fwd : Bool) (r : Request) (e : Setup.Env)
+    (s' : St) (h : (if fwd then runSetup db fuel r e else runUnsetup db fuel r e) = .ok s') (var : Str) :
+    partBy (outsideOf (fun n => ∃ k, Within db r.name k n)) s'.env var =
+      partBy (outsideOf (fun n => ∃ k, Within db r.name k n)) e var := by
+  have key := setup_subjInv (r.cfg db) (fun _ n => ∃ k, Within db r.name k n) _
+    (within_closedAt_unbounded (r.cfg db) r.name)
+    (partBy_subjInvAt (r.cfg db) _ hown (outsideOf (fun n => ∃ k, Within db r.name k n))
+      (fun _ p rel hp => by simp [outsideOf, hp]) e) fuel
+  cases fwd with
+  | true => exact key true 0 false r.vro r.name r.version none (St.init e) s' ⟨0, Within.root⟩ (init_alreadyOK db e) (fun _ => rfl) h var
+  | false => exact key false 0 false r.vro r.name none none (St.init e) s' ⟨0, Within.root⟩ (init_alreadyOK db e) (fun _ => rfl) h var
+
+/-- … and with `--max-depth N` / `--just` the same holds for everything that does not belong to a product within `N`
+edges of the requested one -/
+theorem C04_depth_paths_partial (db : Db) (hown : OwnTables db) (fuel : Nat) (fwd : Bool) (r : Request) (N : Nat)
+    (hN : r.maxDepth = some N) (e : Setup.Env) (s' : St)
+    (h : (if fwd then runSetup db fuel r e else runUnsetup db fuel r e) = .ok s') (var : Str) :
+    partBy (outsideOf (fun n => ∃ k, Within db r.name k n ∧ k ≤ N)) s'.env var =
+      partBy (outsideOf (fun n => ∃ k, Within db r.name k n ∧ k ≤ N)) e var := by
+  have key := setup_subjInv (r.cfg db) (fun k n => Within db r.name k n ∧ k ≤ N) _
+    (within_closedAt (r.cfg db) r.name N hN)
+    (partBy_subjInvAt (r.cfg db) _ hown (outsideOf (fun n => ∃ k, Within db r.name k n ∧ k ≤ N))
+      (fun k p rel hp => by
+        have : ∃ k, Within db r.name k p.1 ∧ k ≤ N := ⟨k, hp⟩
+        simp [outsideOf, this]) e) fuel
+  cases fwd with
+  | true => exact key true 0 false r.vro r.name r.version none (St.init e) s' ⟨Within.root, Nat.zero_le _⟩ (init_alreadyOK db e) (fun _ => rfl) h var
+  | false => exact key false 0 false r.vro r.name none none (St.init e) s' ⟨Within.root, Nat.zero_le _⟩ (init_alreadyOK db e) (fun _ => rfl) h var
+
+/-- Shell functions (aliases): a function that no table of a reachable product defines with `addAlias` is neither
+defined, redefined nor removed by the commands a successful request emits — whatever the caller's functions `f` were.
+Setup and unsetup, every database, mode, fuel. -/
+theorem C04_frame_aliases (db : Db) (fuel : Nat) (fwd : Bool) (r : Request) (e : Setup.Env) (s' : St) (key : Str)
+    (hkey : ¬ AliasOf db (fun _ n => ∃ k, Within db r.name k n) key) (f : Str → Option Str)
+    (h : (if fwd then runSetup db fuel r e else runUnsetup db fuel r e) = .ok s') :
+    ((appSetup db fuel fwd r e).apply (Shell.of e f)).funcs key = f key := by
+  have hfree0 : AliasFree key (St.init e) := ⟨rfl, by simp [St.init]⟩
+  have hnd0 : AliasND (St.init e) := by simp [AliasND, St.init]
+  have key1 := setup_aliasFree (r.cfg db) (fun _ n => ∃ k, Within db r.name k n) key
+    (within_closedAt_unbounded (r.cfg db) r.name) hkey fuel
+  have hfree : AliasFree key s' ∧ AliasND s' := by
+    cases fwd with
+    | true =>
+      have h' : setup (r.cfg db) fuel true 0 false r.vro r.name r.version none (St.init e) = .ok s' := h
+      exact ⟨key1 true 0 false r.vro r.name r.version none (St.init e) s' ⟨0, Within.root⟩ (init_alreadyOK db e) hfree0 h',
+        setup_aliasND (r.cfg db) fuel true 0 false r.vro r.name r.version none (St.init e) s' hnd0 (by rw [h']; rfl)⟩
+    | false =>
+      have h' : setup (r.cfg db) fuel false 0 false r.vro r.name none none (St.init e) = .ok s' := h
+      exact ⟨key1 false 0 false r.vro r.name none none (St.init e) s' ⟨0, Within.root⟩ (init_alreadyOK db e) hfree0 h',
+        setup_aliasND (r.cfg db) fuel false 0 false r.vro r.name none none (St.init e) s' hnd0 (by rw [h']; rfl)⟩
+  have hem : appSetup db fuel fwd r e = .cmds (delta e s') := by unfold appSetup; rw [h]
+  rw [hem]
+  have := (runCmds_delta e s' f hfree.2).2.2.2.2 key
+  show (runCmds (delta e s') (Shell.of e f)).funcs key = f key
+  rw [this, hfree.1.1]
+  simp [hfree.1.2]
 
 /-! ## keep -/
 
@@ -258,5 +328,12 @@ example : ∀ k, ¬ Within dbKeep nC k nA := by
       rcases hd with rfl | rfl | rfl <;> simp at hg <;> simp [nA, nC] at hn
   have := key k nA h
   simp [nA, nC] at this
+
+/-- the hypotheses of the three theorems above are satisfiable: `dbKeep` has own-directory tables only and defines no alias -/
+example : OwnTables dbKeep ∧ ∀ key, ¬ AliasOf dbKeep (fun _ n => ∃ k, Within dbKeep nA k n) key := by
+  refine ⟨ownTables_of_check _ (by decide +kernel), ?_⟩
+  intro key ⟨d, hd, _, g, val, hg⟩
+  simp [dbKeep] at hd
+  rcases hd with rfl | rfl | rfl <;> simp at hg
 
 end EupsModel.C04
